@@ -159,7 +159,7 @@ func (m *Message) decodeAVPs(b []byte) error {
 			return fmt.Errorf("Failed to decode AVP: %s", err)
 		}
 		m.AVP = append(m.AVP, a)
-		n += a.Len()
+		n += pad4(a.Length)
 	}
 	return nil
 }
